@@ -157,8 +157,9 @@ func (g *gctx) stmts(list []ast.Stmt, wantReturn bool) (acts []string, next stri
 					acts = append(acts, ".runExitIfSetST")
 					continue
 				}
-				g.c.Fail("%s: `if p.exit != nil` body is not { p.exit(); p.exit = nil [; p.ignoreST = true] }", g.c.Pos(s))
-				return nil, "", false
+				unrecognised = append(unrecognised, g.c.Pos(s)+": "+src)
+				acts = append(acts, ".unknown")
+				continue
 			}
 			if cond == "p.ignoreST" {
 				b, n, ok := g.stmts(x.Body.List, true)
@@ -166,11 +167,13 @@ func (g *gctx) stmts(list []ast.Stmt, wantReturn bool) (acts []string, next stri
 					acts = append(acts, "(.retIfIgnoreST ("+n+"))")
 					continue
 				}
-				g.c.Fail("%s: `if p.ignoreST` body is not a bare return", g.c.Pos(s))
-				return nil, "", false
+				unrecognised = append(unrecognised, g.c.Pos(s)+": "+src)
+				acts = append(acts, ".unknown")
+				continue
 			}
-			g.c.Fail("%s: unrecognised condition %q", g.c.Pos(s), cond)
-			return nil, "", false
+			unrecognised = append(unrecognised, g.c.Pos(s)+": "+src)
+			acts = append(acts, ".unknown")
+			continue
 		case *ast.DeferStmt:
 			if norm(g.c.Src(x.Call)) == "func() { p.ignoreST = false }()" {
 				acts = append(acts, ".deferClearIgnoreST")
@@ -190,6 +193,11 @@ func (g *gctx) stmts(list []ast.Stmt, wantReturn bool) (acts []string, next stri
 				continue
 			}
 		}
+		if _, isRet := s.(*ast.ReturnStmt); !isRet {
+			unrecognised = append(unrecognised, g.c.Pos(s)+": "+src)
+			acts = append(acts, ".unknown")
+			continue
+		}
 		g.c.Fail("%s: unrecognised statement %q", g.c.Pos(s), src)
 		return nil, "", false
 	}
@@ -203,6 +211,11 @@ func (g *gctx) stmts(list []ast.Stmt, wantReturn bool) (acts []string, next stri
 var timerDelay string
 var timerBody []string
 var sawGenCapture bool
+
+// statements of arms / prologues that are not in the vocabulary: they become `.unknown` (the driver
+// must still build so that the harness can look for a failing input) and are listed in the Gen file;
+// a theorem requires the list to be empty.
+var unrecognised []string
 
 // timer checks the shape of `p.escTimeout = time.AfterFunc(D*time.Millisecond, func() { … })`.
 func (g *gctx) timer(as *ast.AssignStmt) bool {
@@ -539,6 +552,14 @@ func gen(c *ex.Ctx) {
 		return
 	}
 	fmt.Fprintf(&sb, "/-- readRune falls back to the raw byte only when ReadRune reported an invalid byte (size 1), not for a well-formed U+FFFD -/\ndef fallbackOnlyInvalid : Bool := %s\n\n", fallback)
+	sb.WriteString("/-- statements in arms or prologues of the state functions that the extractor does not know (they appear as `.unknown` above) -/\ndef unrecognised : List String := [")
+	for i, u := range unrecognised {
+		if i > 0 {
+			sb.WriteString(", ")
+		}
+		sb.WriteString(ex.LeanStr(u))
+	}
+	sb.WriteString("]\n\n")
 	sb.WriteString("end VaxisModel.Gen.ParserTable\n")
 	c.Write("ParserTable.lean", sb.String())
 }
